@@ -107,7 +107,7 @@ pub fn plan_to_json(p: &crate::imgwr::LayoutPlan) -> Value {
     json!({"seed": p.seed.to_string(), "version": p.version, "shuffle_sectors": p.shuffle_sectors,
         "free_sectors": p.free_sectors, "slot_gaps": p.slot_gaps, "fragment_mini": p.fragment_mini,
         "v3_size_high_garbage": p.v3_size_high_garbage, "min_fat_sectors": p.min_fat_sectors,
-        "library_like_trees": p.library_like_trees, "extra_fat_sectors": p.extra_fat_sectors})
+        "library_like_trees": p.library_like_trees, "extra_fat_sectors": p.extra_fat_sectors, "total_fat_sectors": p.total_fat_sectors})
 }
 
 pub fn plan_from_json(v: &Value) -> Result<crate::imgwr::LayoutPlan, String> {
@@ -122,12 +122,14 @@ pub fn plan_from_json(v: &Value) -> Result<crate::imgwr::LayoutPlan, String> {
         min_fat_sectors: v["min_fat_sectors"].as_u64().unwrap_or(0) as u32,
         library_like_trees: v["library_like_trees"].as_bool().unwrap_or(false),
         extra_fat_sectors: v["extra_fat_sectors"].as_u64().unwrap_or(0) as u32,
+        total_fat_sectors: v["total_fat_sectors"].as_u64().unwrap_or(0) as u32,
     })
 }
 
 pub fn fault_to_json(f: &Fault) -> Value {
     match &f.kind {
         FaultKind::Fail => json!({"k": f.k, "kind": "fail"}),
+        FaultKind::FailAs { flavour } => json!({"k": f.k, "kind": "fail_as", "flavour": flavour, "error": crate::disk::flavour_name(*flavour)}),
         FaultKind::Torn { keep } => json!({"k": f.k, "kind": "torn", "keep": keep}),
         FaultKind::DiskFull { heal } => json!({"k": f.k, "kind": "disk_full", "heal": heal}),
         FaultKind::Short { n } => json!({"k": f.k, "kind": "short", "n": n}),
@@ -140,6 +142,7 @@ pub fn fault_from_json(v: &Value) -> Result<Fault, String> {
     let k = v["k"].as_u64().ok_or("fault.k")?;
     let kind = match v["kind"].as_str().ok_or("fault.kind")? {
         "fail" => FaultKind::Fail,
+        "fail_as" => FaultKind::FailAs { flavour: v["flavour"].as_u64().unwrap_or(0) as u8 },
         "torn" => FaultKind::Torn { keep: v["keep"].as_u64().unwrap_or(0) as usize },
         "disk_full" => FaultKind::DiskFull { heal: v["heal"].as_u64().unwrap_or(0) },
         "short" => FaultKind::Short { n: v["n"].as_u64().unwrap_or(1) as usize },
